@@ -291,7 +291,7 @@ fn class_of(c: &Case) -> String {
 
 pub fn run(ctx: &Ctx) {
     let cases = gen_cases(ctx);
-    let lowest = lowest_mappable();
+    let lowest = hint_floor();
     let mut decided = 0u64;
     let mut refused = 0u64;
     let mut skipped = 0u64;
